@@ -313,6 +313,34 @@ def _os_sendfile(out_fd, in_fd, offset, count, *a, **k):
     return REAL["os.sendfile"](out_fd, in_fd, offset, count, *a, **k)
 
 
+def _mk_fsync(name):
+    def hook(fd):
+        w = cur()
+        if w is None:
+            return REAL["os." + name](fd)
+        n = fd.fileno() if hasattr(fd, "fileno") else fd
+        f = next((x for x in STATE.files if not x.closed and x._hs_fd == n), None)
+        real = f._hs_real() if f is not None and f._hs_rel is not None else relp(STATE.fdpaths.get(n))
+        if real is None:
+            return REAL["os." + name](fd)
+        op = ("write", name, canon(real))
+        w.real = (real,)
+        if is_private(real):
+            w.private(op)
+        else:
+            w.point(op)
+        try:
+            with IN_LAYER:
+                r = REAL["os." + name](fd)
+        except OSError as e:
+            w.obs(op, "err", e.errno)
+            raise
+        w.obs(op, "ok")
+        return r
+    hook.__name__ = name
+    return hook
+
+
 # ----------------------------------------------------------------------------- open()
 
 
@@ -861,6 +889,9 @@ def install(locks=True):
         setattr(os, n, _mk_hook(n, k))
     os.open = _os_open
     os.sendfile = _os_sendfile
+    for n in ("fsync", "fdatasync"):
+        REAL["os." + n] = getattr(os, n)
+        setattr(os, n, _mk_fsync(n))
     builtins.open = _open
     io.open = _open
     fcntl.flock = _flock
@@ -886,6 +917,8 @@ def uninstall():
         setattr(os, n, REAL["os." + n])
     os.open = REAL["os.open"]
     os.sendfile = REAL["os.sendfile"]
+    for n in ("fsync", "fdatasync"):
+        setattr(os, n, REAL["os." + n])
     builtins.open = REAL["open"]
     io.open = REAL["io.open"]
     fcntl.flock = REAL["flock"]
